@@ -3,8 +3,10 @@
    Sequential events:  {"e":"reset"}  {"e":"sub"|"unsub","f":[..],"s":"..","obs":{..}}
    obs = {"count":n,"nodes":n,"look":[{"ch":[..],"x":[..],"r":[[subs..],..]}]}  observed AFTER the operation.
    Every observed lookup result must be one of the results the PROPERTY allows (SpecResults),
-   Count and the number of live nodes must equal the model's. *)
+   Count must be 0 and only the root may remain whenever no subscription is left. *)
 EXTENDS Trie, TraceLib
+
+CONSTANT Strict   \* TRUE: also demand the model's exact Count / node count in every state (diagnostic run)
 
 VARIABLE l
 vars == <<tvars, l>>
@@ -12,8 +14,8 @@ vars == <<tvars, l>>
 (* evaluated on the state AFTER the operation: primes are written out, because priming the whole
    application would also prime the cursor l inside the argument *)
 ObsOK(o) ==
-    /\ o.count = count'
-    /\ o.nodes = Cardinality(nodes')
+    /\ (S' = {}) => (o.count = 0 /\ o.nodes = 1)      \* "the subscription index is empty again"
+    /\ Strict => (o.count = count' /\ o.nodes = Cardinality(nodes'))   \* internal agreement: diagnostic only
     /\ \A i \in DOMAIN o.look :
          LET lk == o.look[i] IN
          \A j \in DOMAIN lk.r : ToSet(lk.r[j]) \in SpecResults(S', lk.ch, ToSet(lk.x))
